@@ -118,3 +118,13 @@ Proof.
   destruct (cached_power (poa c2) =? 0); [reflexivity|].
   destruct (30 <=? wrap_u64 (abs_changed (poa c2) * 100) / cached_power (poa c2)); reflexivity.
 Qed.
+
+(* non-vacuity: total 40 — a running sum of 11 passes (27 %), 12 is refused (30 %), the unsafe flag and height 1 skip the test,
+   a cached total of 0 refuses *)
+Example limit_examples :
+  lrun false 7 40 11 x_limit_SetPower = Some None /\
+  lrun false 7 40 12 x_limit_SetPower = Some (Some EPoaUnsafePower) /\
+  lrun true 7 40 12 x_limit_SetPower = Some None /\
+  lrun false 1 40 12 x_limit_SetPower = Some None /\
+  lrun false 7 0 0 x_limit_SetPower = Some (Some EPoaUnsafePower).
+Proof. vm_compute. repeat split; reflexivity. Qed.
